@@ -81,11 +81,14 @@ pub fn stable_dedup_by<T, F: Fn(&T) -> D, D: std::hash::Hash + Eq + Copy>(f: F, 
 
 #[verifier::external_body]
 pub fn get_nonterminals_resolution_order(arena: &[Expr], nonterminal_definitions: &UstrMap<NontermDefn>) -> (r: Result<Vec<Ustr>>)
-    ensures r is Ok ==> (forall|i: int| 0 <= i < (r->Ok_0)@.len() ==> nonterminal_definitions@.contains_key(#[trigger] (r->Ok_0)@[i]))
+    ensures
+        r is Ok ==> (forall|i: int| 0 <= i < (r->Ok_0)@.len() ==> nonterminal_definitions@.contains_key(#[trigger] (r->Ok_0)@[i])),
+        r is Err ==> r->Err_0 is NonterminalDefinitionsCycle,
 { unimplemented!() }
 
 #[verifier::external_body]
 pub fn check_subword_spaces(arena: &[Expr], expr_id: ExprId, nonterms: &UstrMap<NontermDefn>) -> (r: Result<()>)
+    ensures r is Err ==> r->Err_0 is SubwordSpaces
 { unimplemented!() }
 
 } // verus!
